@@ -163,12 +163,18 @@ def _vconnect(path, *a, **kw):
     if drv is None:
         return _REAL_CONNECT(path, *a, **kw)
     kw["factory"] = _rec_class(kw.get("factory") or sqlite3.Connection)
+    if str(path) == ":memory:" and getattr(drv, "memory_dir", None):
+        # (the test recorder) a private in-memory database becomes a private file, so that what is
+        # committed can be read by an independent connection
+        drv.memory_n = getattr(drv, "memory_n", 0) + 1
+        path = os.path.join(drv.memory_dir, "mem-%d.sqlite" % drv.memory_n)
     c = _REAL_CONNECT(path, *a, **kw)
+    c._mbh_path = str(path)
     drv._conns_made = [x for x in drv._conns_made if getattr(x, "_mbh_role", None)][-4:] + [c]
     # durable changes are looked for at the start of every SQL statement as well: a commit
     # need not go through Connection.commit() (`with db:`, executescript, autocommit mode)
-    c.set_trace_callback(lambda stmt, _d=drv: _d._on_commit())
-    if os.path.abspath(str(path)) == os.path.abspath(drv.chan_path):
+    c.set_trace_callback(lambda stmt, _d=drv: getattr(_d, "_on_stmt", _d._on_commit)())
+    if drv.chan_path and os.path.abspath(str(path)) == os.path.abspath(drv.chan_path):
         c._mbh_role = "channel"
     elif drv.usage_path and os.path.abspath(str(path)) == os.path.abspath(drv.usage_path):
         c._mbh_role = "usage"
